@@ -27,6 +27,21 @@ class Cases:
     def h(self, b):
         return bytes(b).hex() or "-"
 
+    # G0: inputs of earlier alarms (genuine or false), always run first
+    def regress(self, pid, kind="dec"):
+        import json as _json
+        path = os.path.join(os.path.dirname(os.path.abspath(__file__)), "regress.json")
+        out = []
+        for e in _json.load(open(path)):
+            if e["id"] != pid or e["kind"] != kind:
+                continue
+            if kind == "dec":
+                out.append(("regress", e["root"], bytes.fromhex(e["input_hex"]), {"faults": []}))
+            else:
+                parts = [bytes.fromhex(x) for x in e["parts_hex"]]
+                out.append(("regress-stream", "S", b"".join(parts), {"msgs": [], "parts": parts}))
+        return out
+
     # G1: well-formed
     def wellformed(self, per_type=1, per_cc=1, corpus_n=120):
         """yields (label, root, bytes, info)"""
@@ -40,6 +55,12 @@ class Cases:
                 c, ci, r, ri = self.G.pair(cc)
                 out.append(("wf-command", "C", c, ci))
                 out.append(("wf-response", "R:%d:%d" % (cc, 1 if ci["rsp_enc"] else 0), r, ri))
+        # tag TPM_ST_SESSIONS with a present but empty authorization area
+        for cc in self.rng.sample(self.G.ccs, 6 * self.scale):
+            c, ci = self.G.command(cc, nsessions=0, empty_area=True)
+            out.append(("wf-command-empty-area", "C", c, ci))
+            r, ri = self.G.response(cc, enc=False, nsessions=0, rc=0, empty_area=True)
+            out.append(("wf-response-empty-area", "R:%d:0" % cc, r, ri))
         # area types decoded on their own
         for which, key in (("CH", "cmd_handles"), ("CP", "cmd_params"), ("RH", "rsp_handles"), ("RP", "rsp_params")):
             tbl = self.T[key]
